@@ -28,6 +28,13 @@ fn check_nevra(n: &str, e: &str, v: &str, r: &str, a: &str, prio: u64, acc: &mut
         let text = val.to_string();
         let norm = val.as_normalized_form();
         // the same value built from owned strings must format identically
+        // formatting options of the caller (width, fill, alignment, a precision longer than the text) may pad the whole text, not re-shape it
+        let mut fmt_differs = None;
+        for padded in [format!("{:>64}", val), format!("{:<64}", val), format!("{:*^64}", val), format!("{:.4096}", val)] {
+            if padded.trim_matches(|c| c == ' ' || c == '*') != text {
+                fmt_differs = Some(format!("formatted with a width / precision the NEVRA reads {:?}, plainly it reads {:?}", padded, text));
+            }
+        }
         let owned = Nevra::new(n.to_string(), e.to_string(), v.to_string(), r.to_string(), a.to_string());
         let owned_differs = if owned.to_string() != text || owned.as_normalized_form() != norm || owned.nvra() != val.nvra() || owned != val {
             Some(format!("built from owned strings it formats as {:?} / {:?}, built from borrowed ones as {:?} / {:?}", owned.to_string(), owned.as_normalized_form(), text, norm))
@@ -43,14 +50,14 @@ fn check_nevra(n: &str, e: &str, v: &str, r: &str, a: &str, prio: u64, acc: &mut
         let nb_vals = (nb.name().to_string(), nb.epoch().to_string(), nb.version().to_string(), nb.release().to_string(), nb.arch().to_string());
         let pv = Nevra::parse_values(&text);
         let pv = (pv.0.to_string(), pv.1.to_string(), pv.2.to_string(), pv.3.to_string(), pv.4.to_string());
-        (text, norm, nvra, back_vals, eq, nb_vals, pv, owned_differs)
+        (text, norm, nvra, back_vals, eq, nb_vals, pv, owned_differs.or(fmt_differs))
     });
     let (text, norm, nvra, back, eq, nb, pv, owned_differs) = match res {
         Ok(x) => x,
         Err(p) => return acc.viol(panic_violation("nevra", &p, case())),
     };
     if let Some(d) = owned_differs {
-        acc.viol(Violation::new("nevra", format!("the textual form depends on whether the components are owned or borrowed strings: {}", d), case()).sig("clause", "owned-vs-borrowed"));
+        acc.viol(Violation::new("nevra", format!("the textual form is not stable: {}", d), case()).sig("clause", "owned-vs-borrowed"));
     }
     let dash = if n.contains('-') { "yes" } else { "no" };
     let want = (n.to_string(), e.to_string(), v.to_string(), r.to_string(), a.to_string());
@@ -84,6 +91,12 @@ fn check_evr(e: &str, v: &str, r: &str, prio: u64, acc: &mut Acc) {
         let val = Evr::new(e, v, r);
         let text = val.to_string();
         let norm = val.as_normalized_form();
+        let mut fmt_differs = None;
+        for padded in [format!("{:>64}", val), format!("{:<64}", val), format!("{:*^64}", val), format!("{:.4096}", val)] {
+            if padded.trim_matches(|c| c == ' ' || c == '*') != text {
+                fmt_differs = Some(format!("formatted with a width / precision the EVR reads {:?}, plainly it reads {:?}", padded, text));
+            }
+        }
         let owned = Evr::new(e.to_string(), v.to_string(), r.to_string());
         let owned_differs = if owned.to_string() != text || owned.as_normalized_form() != norm || owned != val {
             Some(format!("built from owned strings it formats as {:?} / {:?}, built from borrowed ones as {:?} / {:?}", owned.to_string(), owned.as_normalized_form(), text, norm))
@@ -96,14 +109,14 @@ fn check_evr(e: &str, v: &str, r: &str, prio: u64, acc: &mut Acc) {
         let e_ = std::cmp::Ordering::Equal;
         let eq = back == val && back.cmp(&val) == e_ && val.cmp(&back) == e_ && nb == val && nb.cmp(&val) == e_ && val.cmp(&nb) == e_;
         let nbv = (nb.epoch().to_string(), nb.version().to_string(), nb.release().to_string());
-        (text, norm, bv, eq, nbv, owned_differs)
+        (text, norm, bv, eq, nbv, owned_differs.or(fmt_differs))
     });
     let (text, norm, bv, eq, nbv, owned_differs) = match res {
         Ok(x) => x,
         Err(p) => return acc.viol(panic_violation("evr", &p, case())),
     };
     if let Some(d) = owned_differs {
-        acc.viol(Violation::new("evr", format!("the textual form depends on whether the components are owned or borrowed strings: {}", d), case()).sig("clause", "owned-vs-borrowed"));
+        acc.viol(Violation::new("evr", format!("the textual form is not stable: {}", d), case()).sig("clause", "owned-vs-borrowed"));
     }
     let want = (e.to_string(), v.to_string(), r.to_string());
     if bv != want || !eq {
@@ -239,9 +252,22 @@ pub fn run(ctx: &Ctx) -> i32 {
             acc.sample(i, || json!({"text": s}));
         }
     }));
-    let mut s4 = SubReport::new("no-panic", "A", &format!("every string of length ≤ {} over {{a,1,-,.,:}} plus \"none\", \"gzip\", …, and texts of length 3 … 4096 (every power of two ± 1) with a 2-, 3- or 4-byte character straddling the boundary, through Nevra::parse, Evr::parse, parse_values, rpm_evr_compare, CompressionType::from_str", l), d);
+    let mut s4 = SubReport::new("no-panic", "A", &format!("every string of length ≤ {} over {{a,1,-,.,:}} plus \"none\", \"gzip\", …, every sequence of ≤ 3 words from the vocabulary of compressor names and rpm payload flags (gzip … none, gzdio … ufdio, w, 9, 19, T, L, '.', ' ', '-') in both cases, and texts of length 3 … 4096 (every power of two ± 1) with a 2-, 3- or 4-byte character straddling the boundary, through Nevra::parse, Evr::parse, parse_values, rpm_evr_compare, CompressionType::from_str", l), d);
     for w in ["none", "gzip", "zstd", "xz", "bzip2", "", "é", "-:-.", ":::", "---"] {
         check_nopanic(w, &mut s4.acc);
+    }
+    // the vocabulary of compressor names: the five names, rpm's payload-flag spellings (w9.gzdio, w19.zstdio, w.ufdio …) and their pieces
+    {
+        let voc = ["gzip", "zstd", "xz", "bzip2", "none", "gzdio", "zstdio", "xzdio", "bzdio", "ufdio", "lzdio", "w", "9", "19", "T", "L", ".", " ", "-"];
+        let n = strings_count(voc.len(), 3);
+        let extra = merge(par_fold(n, Acc::new, |i, acc| {
+            let mut t = vec![];
+            strings_nth(i, voc.len(), &mut t);
+            let s: String = t.iter().map(|x| voc[*x]).collect();
+            check_nopanic(&s, acc);
+            check_nopanic(&s.to_uppercase(), acc);
+        }));
+        s4.acc.merge(extra);
     }
     // texts whose length sits at a power of two, with a multi-byte character straddling the boundary
     for l in [3usize, 4, 7, 8, 15, 16, 17, 31, 32, 33, 63, 64, 65, 127, 128, 129, 255, 256, 257, 1023, 1024, 4095, 4096] {
